@@ -86,3 +86,14 @@ package refopts
 //@   ensures cs0 || refGrouper.ignoredRefGroup == nil ==> same(result1, cs1)
 
 //@ property C07: (*refGroup).collectSymbols (*refGrouper).Categorize
+
+// Given contracts so that mainImplementation is checked against them instead
+// of inlining their bodies (their own verification is listed where claimed).
+//@ func NewRefGroupBuilder
+//@   modifies everything
+//@ func (*RefGroupBuilder).AddRefopts
+//@   modifies everything
+//@ func (*RefGroupBuilder).Finish
+//@   modifies everything
+//@ func NewShowRefGrouper
+//@   pure
